@@ -83,9 +83,10 @@ func buildRects(g *graph.DGraph, r routableEdge) (rects []geom.Rect) {
 
 func rectBetweenLayers(l1, l2 *graph.Layer) geom.Rect {
 	h1, h2 := l1.Head(), l2.Head()
-	t1, t2 := l2.Tail(), l2.Tail()
+	t1, t2 := l1.Tail(), l2.Tail()
 	return geom.Rect{
-		TL: geom.P{min(h1.X, h2.X), h1.Y + h1.H},
+		// the gap between the two layers starts at the bottom of the upper layer, not of its first node
+		TL: geom.P{min(h1.X, h2.X), h1.Y + l1.H},
 		BR: geom.P{max(t1.X+t1.W, t2.X+t2.W), t2.Y},
 	}
 }
@@ -97,7 +98,8 @@ func rectVirtualNode(vn *graph.Node, vl *graph.Layer) geom.Rect {
 		n := vl.Nodes[p+1]
 		return geom.Rect{
 			TL: geom.P{vn.X - 10, n.Y},
-			BR: geom.P{n.X, n.Y + n.H},
+			// the rectangle spans the whole layer: the neighbor may be shorter, or virtual too
+			BR: geom.P{n.X, n.Y + vl.H},
 		}
 
 	case p == vl.Len()-1:
@@ -105,13 +107,15 @@ func rectVirtualNode(vn *graph.Node, vl *graph.Layer) geom.Rect {
 		n := vl.Nodes[p-1]
 		return geom.Rect{
 			TL: geom.P{n.X + n.W, n.Y},
-			BR: geom.P{vn.X + 10, n.Y + n.H},
+			BR: geom.P{vn.X + 10, n.Y + vl.H},
 		}
 
 	default:
 		n1 := vl.Nodes[p-1]
 		n2 := vl.Nodes[p+1]
-		return rectBetweenNodes(n1, n2)
+		r := rectBetweenNodes(n1, n2)
+		r.BR.Y = n1.Y + vl.H
+		return r
 	}
 }
 
